@@ -94,6 +94,7 @@ prop('C03', [
     reord.r_stale_levels,
     misc.r_oneshot,
     role.r_quant_guard,
+    misc.r_quant_vars,
 ],
     'complement push-down in _quantify on every path; LOW/HIGH roles into '
     'find_or_add; ite(p, q, -1) under forall / ite(p, 1, q) otherwise are '
